@@ -690,3 +690,92 @@ Lemma observed_independent orig cl n : deepb orig cl n = true -> exists lim, ind
 Proof.
   intro E. destruct (deepb_sound _ _ _ E) as (B & n' & D). exists n'. exact (deep_is_independent _ _ _ _ D B).
 Qed.
+
+(* ================================================================ statements used by Props/C19.v *)
+Lemma clone_no_observation v n ws : below v n -> legal (snd (clone v n)) v (fst (clone v n)) ws ->
+  run2 v (fst (clone v n)) ws = (own_writes SideL ws v, own_writes SideR ws (fst (clone v n))) /\
+  (only SideL ws -> snd (run2 v (fst (clone v n)) ws) = fst (clone v n)
+                    /\ erase (snd (run2 v (fst (clone v n)) ws)) = erase v) /\
+  (only SideR ws -> fst (run2 v (fst (clone v n)) ws) = v /\ erase (fst (run2 v (fst (clone v n)) ws)) = erase (fst (clone v n))).
+Proof.
+  intros B L. pose proof (clone_deep v n) as D. split; [exact (deep_independent _ _ _ _ ws D B L)|].
+  destruct (deep_no_observation _ _ _ _ ws D B L) as [H1 H2]. split; [exact H1|].
+  intro O. rewrite (H2 O). split; [reflexivity|]. symmetry. apply clone_erase.
+Qed.
+
+Section TypedIndependence.
+  Context {A : Type} (c : A -> M A) (tg : A -> gv) (wf : A -> bool).
+  Hypothesis Hdeep : forall x, wf x = true -> okM (c x) tg (tg x).
+  Lemma typed_independent : forall x, wf x = true -> forall n, below (tg x) n ->
+    exists x' n', c x n = Some (x', n') /\ independent (tg x) (tg x') n'.
+  Proof. intros x W n B. exact (okM_independent _ _ _ (Hdeep x W) n B). Qed.
+End TypedIndependence.
+
+Lemma params_clone_independent p : params_wf p = true -> forall l0 n, below (paramsptr_gv (Some (l0, p))) n ->
+  exists q n', clone_params p n = Some (q, n') /\ independent (paramsptr_gv (Some (l0, p))) (paramsptr_gv (Some q)) n'.
+Proof. intros W l0 n B. exact (okM_independent _ _ _ (clone_paramsptr_deep l0 p W) n B). Qed.
+
+Lemma source_clone_independent s : source_wf s = true -> forall n, below (source_gv s) n ->
+  exists l s', clone_source s n = Some ((l, s'), S l) /\ independent (source_gv s) (source_gv s') l.
+Proof.
+  intros W n B. destruct (clone_source_deep s W n) as (l & s' & E & D). exists l, s'. split; [exact E|].
+  exact (deep_is_independent _ _ _ _ D B).
+Qed.
+
+Lemma from_source_independent s peers parent : source_wf s = true -> forall n, below (source_gv s) n ->
+  exists l s', from_source s peers parent n = Some ((l, s', peers, parent), S l) /\
+               independent (source_gv s) (source_gv s') l.
+Proof.
+  intros W n B. destruct (from_source_deep s peers parent W n) as (l & s' & E & D). exists l, s'. split; [exact E|].
+  exact (deep_is_independent _ _ _ _ D B).
+Qed.
+
+(* ================================================================ exact agreement with the generic clone
+   Where the Go method allocates in pre-order and preserves nil (CloneBals, Balances.Clone, CloneSigs),
+   the code-shaped function IS the generic clone, location for location. *)
+Definition exactM {A} (f : A -> M A) (tg : A -> gv) (wf : A -> bool) : Prop :=
+  forall x, wf x = true -> forall n, exists y,
+    f x n = Some (y, snd (clone (tg x) n)) /\ tg y = fst (clone (tg x) n).
+
+Lemma mapM_exact {A} (f : A -> M A) (tg : A -> gv) (wf : A -> bool) : exactM f tg wf ->
+  forall xs, forallb wf xs = true -> forall n, exists ys,
+    mapM f xs n = Some (ys, snd (mapS clone (map tg xs) n)) /\ map tg ys = fst (mapS clone (map tg xs) n).
+Proof.
+  intros Hf. induction xs as [|x r IH]; cbn [forallb]; intros W n.
+  - exists []. split; reflexivity.
+  - apply andb_true_iff in W as [Wx Wr].
+    destruct (Hf x Wx n) as (y & E1 & T1).
+    destruct (IH Wr (snd (clone (tg x) n))) as (ys & E2 & T2).
+    exists (y :: ys). cbn [map mapS].
+    destruct (clone (tg x) n) as [cx s1]. cbn [fst snd] in *.
+    destruct (mapS clone (map tg r) s1) as [cr s2]. cbn [fst snd] in *.
+    split; [|cbn [map]; congruence].
+    cbn [mapM]. rewrite (bind_some _ _ _ _ _ E1), (bind_some _ _ _ _ _ E2). reflexivity.
+Qed.
+
+Lemma clone_slice_exact {A} (f : A -> M A) (tg : A -> gv) (wf : A -> bool) : exactM f tg wf ->
+  exactM (clone_slice f) (slice_gv tg) (slice_all wf).
+Proof.
+  intros Hf [[l xs]|] W n; cbn [slice_all] in W.
+  - destruct (mapM_exact f tg wf Hf xs W (S n)) as (ys & E & T).
+    exists (Some (n, ys)). cbn [slice_gv opt_gv fst snd clone].
+    destruct (mapS clone (map tg xs) (S n)) as [cr s2]. cbn [fst snd] in *.
+    split; [|congruence].
+    unfold clone_slice. rewrite bind_fresh, (bind_some _ _ _ _ _ E). reflexivity.
+  - exists None. split; reflexivity.
+Qed.
+
+Lemma clone_int_exact : exactM clone_int int_gv isSome.
+Proof. intros [i|] W n; [|discriminate]. eexists. split; reflexivity. Qed.
+
+Lemma clone_bals_exact : exactM clone_bals bals_gv bals_wf.
+Proof. exact (clone_slice_exact _ _ _ clone_int_exact). Qed.
+
+Lemma clone_balances_exact : exactM clone_balances balances_gv (slice_all bals_wf).
+Proof. exact (clone_slice_exact _ _ _ clone_bals_exact). Qed.
+
+Lemma clone_sig_exact : exactM clone_sig sig_gv (fun _ => true).
+Proof. intros [[l b]|] _ n; eexists; split; reflexivity. Qed.
+
+Lemma clone_sigs_exact : exactM clone_sigs sigs_gv (slice_all (fun _ => true)).
+Proof. exact (clone_slice_exact _ _ _ clone_sig_exact). Qed.
